@@ -70,6 +70,9 @@ pub struct DCfg {
     /// C19: an inexpressible value is in play, so an Err from a call counts as "refused"
     pub inexpressible: Vec<&'static str>,
     pub edge_values: u32,
+    /// further activities on the same connection after the first one was stopped:
+    /// (publish?, stream key, publish type, items)
+    pub later: Vec<(bool, String, u64, Vec<Item>)>,
 }
 
 fn draw_name(ctx: &mut Ctx, label: &'static str) -> String {
@@ -332,6 +335,7 @@ pub fn draw_cfg(ctx: &mut Ctx, mode: DMode) -> DCfg {
         time_scale: 0,
         inexpressible: Vec::new(),
         edge_values: 0,
+        later: Vec::new(),
     };
     cfg.publish = !ctx.ch.chance("cfg.play", 1, 2);
     cfg.app = draw_name(ctx, "cfg.app");
@@ -415,6 +419,17 @@ pub fn draw_cfg(ctx: &mut Ctx, mode: DMode) -> DCfg {
     cfg.time_scale = ctx.ch.weighted("cfg.timescale", &[3, 2, 2, 1, 1]) as u64;
     let sender_chunk = if cfg.publish { cfg.c_chunk } else { cfg.s_chunk };
     cfg.items = draw_items(ctx, &mut cfg, sender_chunk, edge);
+    // 0-2 further activities on the same connection (3 in the thorough tier)
+    let extra = ctx.ch.weighted("cfg.activities", &[6, 3, 1, if ctx.tier_thorough { 1 } else { 0 }]);
+    for _ in 0..extra {
+        let publish = !ctx.ch.chance("cfg.play", 1, 2);
+        let key = if ctx.ch.chance("cfg.samekey", 1, 3) { cfg.key.clone() } else { draw_name(ctx, "cfg.key") };
+        let key = if key.len() > 1000 { "k2".to_string() } else { key };
+        let pub_type = ctx.ch.draw("cfg.pubtype", 3);
+        let chunk = if publish { cfg.c_chunk } else { cfg.s_chunk };
+        let items = draw_items(ctx, &mut cfg, chunk, false);
+        cfg.later.push((publish, key, pub_type, items));
+    }
     cfg
 }
 
@@ -465,6 +480,7 @@ pub struct World {
     finished_events: u32,
     play_sid: Option<u32>,
     refused: Option<String>,
+    acts_done: u32,
 }
 
 fn viol(ctx: &Ctx, oracle: &str, class: &str, msg: String) -> Violation {
@@ -582,6 +598,9 @@ impl World {
                         return Err(viol(ctx, "tags", "wrong-finished-tags", format!("finished event for {:?}/{:?}", trunc(&app_name), trunc(&stream_key))));
                     }
                     self.finished_events += 1;
+                    if self.finished_events > self.acts_done + 1 {
+                        return Err(viol(ctx, "workflow", "finished-twice", format!("{} finished events after {} stops", self.finished_events, self.acts_done + 1)));
+                    }
                     ctx.tr(|| "    server raised the finished event".to_string());
                 }
                 ServerSessionEvent::AudioDataReceived { app_name, stream_key, data, timestamp } => {
@@ -824,7 +843,29 @@ impl World {
     }
 
     fn complete(&self) -> bool {
-        self.cli_phase == CliPhase::Done && self.finished_events >= 1
+        self.cli_phase == CliPhase::Done && self.finished_events >= self.acts_done + 1 && self.cfg.later.is_empty()
+    }
+
+    /// The current activity is over on both sides and another one is planned: start it on
+    /// the same connection.
+    fn next_activity(&mut self, ctx: &mut Ctx) -> bool {
+        if self.cli_phase == CliPhase::Done && self.finished_events == self.acts_done + 1 && !self.cfg.later.is_empty() && self.received_items == self.cfg.items.len() {
+            let (publish, key, pub_type, items) = self.cfg.later.remove(0);
+            self.cfg.publish = publish;
+            self.cfg.key = key;
+            self.cfg.pub_type = pub_type;
+            self.cfg.items = items;
+            self.acts_done += 1;
+            self.next_item = 0;
+            self.received_items = 0;
+            self.cli_accepted = false;
+            self.play_sid = None;
+            self.cli_phase = CliPhase::Connected;
+            ctx.probe("d.further_activity_on_same_connection");
+            ctx.tr(|| format!("  --- next activity on the same connection: {} {:?} ({} items)", if self.cfg.publish { "publish" } else { "play" }, trunc(&self.cfg.key), self.cfg.items.len()));
+            return true;
+        }
+        false
     }
 }
 
@@ -932,6 +973,7 @@ pub fn build(ctx: &mut Ctx, mode: DMode, cfg: DCfg) -> Result<Option<World>, Vio
         finished_events: 0,
         play_sid: None,
         refused: None,
+        acts_done: 0,
     };
     w.srv.c.clock = NodeClock::new(w.cfg.s_off_ms);
     w.cli.c.clock = NodeClock::new(w.cfg.c_off_ms);
@@ -949,6 +991,7 @@ pub fn build(ctx: &mut Ctx, mode: DMode, cfg: DCfg) -> Result<Option<World>, Vio
 /// (C18) are injected through `extra`.
 pub fn drive(ctx: &mut Ctx, w: &mut World, mut extra: impl FnMut(&mut Ctx, &mut World) -> RunResult) -> RunResult {
     loop {
+        w.next_activity(ctx);
         if w.refused.is_some() || w.complete() {
             break;
         }
@@ -1047,8 +1090,8 @@ pub fn run(ctx: &mut Ctx, mode: DMode) -> RunResult {
             // let the remaining bytes drain so that a late finished event is seen (the
             // scheduler stops at completion; finished is raised by the deleteStream delivery)
             end_oracle(ctx, &w)?;
-            if w.finished_events > 1 {
-                return Err(viol(ctx, "workflow", "finished-twice", format!("{} finished events for one stop", w.finished_events)));
+            if w.finished_events > w.acts_done + 1 {
+                return Err(viol(ctx, "workflow", "finished-twice", format!("{} finished events for {} stops", w.finished_events, w.acts_done + 1)));
             }
             if !w.cfg.publish {
                 ctx.probe("d.play_scenario");
